@@ -27,6 +27,7 @@ type Config struct {
 	pgcounterprefix map[pgkey]bool
 	pgstack         map[pgkey]bool
 	rate            map[pgkey]float64
+	stackrate       map[pgkey]float64
 }
 
 type pgkey struct {
@@ -56,6 +57,7 @@ func NewConfig(cfg *telemetry.UploadConfig) *Config {
 	ucfg.pgcounterprefix = make(map[pgkey]bool, len(ucfg.Programs))
 	ucfg.pgstack = make(map[pgkey]bool, len(ucfg.Programs))
 	ucfg.rate = make(map[pgkey]float64)
+	ucfg.stackrate = make(map[pgkey]float64)
 	for _, p := range ucfg.Programs {
 		ucfg.program[p.Name] = true
 		for _, v := range p.Versions {
@@ -73,7 +75,9 @@ func NewConfig(cfg *telemetry.UploadConfig) *Config {
 		}
 		for _, s := range p.Stacks {
 			ucfg.pgstack[pgkey{p.Name, s.Name}] = true
-			ucfg.rate[pgkey{p.Name, s.Name}] = s.Rate
+			// A counter and a stack counter of one program may have the same
+			// name and different rates: keep them apart.
+			ucfg.stackrate[pgkey{p.Name, s.Name}] = s.Rate
 		}
 	}
 	return &ucfg
@@ -111,8 +115,14 @@ func (r *Config) HasStack(program, stack string) bool {
 	return r.pgstack[pgkey{program, stack}]
 }
 
+// Rate returns the rate of the (expanded) counter name for the program.
 func (r *Config) Rate(program, name string) float64 {
 	return r.rate[pgkey{program, name}]
+}
+
+// StackRate returns the rate of the stack counter name for the program.
+func (r *Config) StackRate(program, name string) float64 {
+	return r.stackrate[pgkey{program, name}]
 }
 
 func set(slice []string) map[string]bool {
